@@ -77,6 +77,40 @@ where
     map_render_injective renderCast renderCast_injective t t' ht hf
       (encWindow_injective _ _ _ (by simp [sameTypeT_length t t' ht]) h)
 
+/-! ### qualified GROUP BY columns (recorded finding `qualified-group-column`)
+
+Full statement: the window key determines the tuple of group values, whichever GROUP BY columns
+are dotted paths.  It fails on the code as it is (a qualified column always contributes NULL), so
+with `GROUP BY m.location, CountingWindow(N)` all groups share one count buffer.  What holds is
+the partial statement under the decidable hypothesis "no GROUP BY column is qualified" — the
+hypothesis under which `counting_eq_chunks_tuple` speaks about real group tuples. -/
+
+def windowKey_determines_group_full : Prop :=
+  ∀ (qualified : List Bool) (t t' : List GroupKey.Val), t.length = t'.length →
+    windowTuple GroupKey.Val.null qualified t = windowTuple GroupKey.Val.null qualified t' → t = t'
+
+theorem windowKey_determines_group_partial (qualified : List Bool)
+    (H : qualified.all (fun q => !q) = true) (t : List GroupKey.Val) :
+    windowTuple GroupKey.Val.null qualified t = t := by
+  induction qualified generalizing t with
+  | nil => cases t <;> rfl
+  | cons q qs ih =>
+    simp only [List.all_cons, Bool.and_eq_true, Bool.not_eq_true'] at H
+    cases t with
+    | nil => rfl
+    | cons v vs => simp [windowTuple, H.1, ih H.2 vs]
+
+theorem windowKey_determines_group_fails : ¬ windowKey_determines_group_full := by
+  intro h
+  have := h [true] [.str ['a']] [.str ['b']] rfl (by decide)
+  exact absurd this (by decide)
+
+-- the consequence on the window: N = 2, groups a and b under one qualified column share a buffer,
+-- the batch mixes them (each group's result then aggregates 1 row instead of waiting for 2)
+example : run 2 [] [Op.row (GroupKey.encCounting (windowTuple .null [true] [.str ['a']])) 1,
+                    Op.row (GroupKey.encCounting (windowTuple .null [true] [.str ['b']])) 2]
+    = [(GroupKey.encCounting [.null], [1, 2])] := by decide
+
 /-! non-vacuity -/
 -- N = 2, keys a/b interleaved: a gets [1,3] then [5,7]; b gets [2,4]; 9 (a) and 6 (b) keep waiting
 example : run 2 [] [Op.row 'a' 1, .row 'b' 2, .row 'a' 3, .row 'b' 4, .row 'a' 5, .row 'b' 6, .row 'a' 7, .row 'a' 9]
